@@ -5,6 +5,7 @@ CTOR (C06): every `ast.<Node>(...)` construction in the package supplies the fie
 import ast
 import re
 
+from sa.consteval import Folder
 from sa.model import AnalysisError, Finding, enclosing_fn, loc, src
 
 # fields added by newer grammars that the stdlib unparser/compiler reads defensively (hasattr / default)
@@ -30,6 +31,7 @@ def _mandatory(cls):
 
 def rule_ctor(prog, rep, tier):
     n = bad = 0
+    folder = Folder(prog)
     for call in prog.all_calls():
         if not isinstance(call.func, (ast.Name, ast.Attribute)):
             continue
@@ -43,7 +45,14 @@ def rule_ctor(prog, rep, tier):
             continue
         fields, mand = _mandatory(cls)
         given = set(fields[: len(call.args)]) | {k.arg for k in call.keywords if k.arg}
-        unknown_kw = any(k.arg is None for k in call.keywords)
+        unknown_kw = False
+        for k in call.keywords:
+            if k.arg is None:
+                v = folder.fold(k.value, {}, call)
+                if isinstance(v, dict):
+                    given |= set(v)
+                else:
+                    unknown_kw = True
         missing = [f for f in mand if f not in given]
         n += 1
         fn = enclosing_fn(call)
